@@ -3,6 +3,7 @@ C39 — history and dialog iterators yield every item once, in server order, and
 Property theorems only (helper lemmas live in TdModel/Lemmas/C39.lean).
 -/
 import TdModel.Lemmas.C39
+import TdModel.Lemmas.C39D
 
 namespace TdModel.C39
 open TdModel
@@ -31,6 +32,43 @@ theorem iterate_exact (hist : List Nat) (hdesc : hist.Pairwise (fun a b => a > b
     (by rw [hpend]; exact hfuel)
   rw [hpend] at this
   exact this
+
+/-- The iteration costs at most `⌈n / limit⌉ + 1` requests (the last one discovers the end), for any
+number of `Next` calls. -/
+theorem iterate_requests_bounded (hist : List Nat) (hdesc : hist.Pairwise (fun a b => a > b))
+    (hpos : ∀ x ∈ hist, 0 < x) (limit : Nat) (hlimit : 1 ≤ limit) (ks : List Kind) (fuel : Nat) :
+    (run hist fuel ks (Iter.init limit)).reqs.length ≤ (hist.length + limit - 1) / limit + 1 := by
+  have := runS_reqs hist hdesc hpos ks fuel 0 (Iter.init limit) (by simp only [Iter.init]; omega)
+  simpa [run, reqBound, Iter.init, below, ceilDiv] using this
+
+/-- Once `Next` has returned `false` it keeps returning `false` and yields nothing more: from a state
+whose buffer is exhausted after the last batch, any further run yields nothing. -/
+theorem stops_after_last (srv : Server) (fuel i : Nat) (s : Iter)
+    (hbuf : s.buf.length ≤ s.pos) (hlast : s.lastBatch = true) :
+    (runS srv fuel i s).yields = [] := by
+  cases fuel with
+  | zero => rfl
+  | succ fuel =>
+    have hb : bufHas s = false := by simp [bufHas_eq]; omega
+    rw [runS_stop srv fuel i s hb (by rw [apply_lastBatch _ _ _ hlast]; exact hb)]
+
+/-- Dialogs: for every dialog list in server order (strictly descending in `(date, top message id,
+peer)`, no all-zero key), every page size ≥ 1 and every choice of `messages.dialogs` /
+`messages.dialogsSlice` per request, iterating yields exactly the list, in order, and stops. -/
+theorem iterate_dialogs_exact (ds : List Dlg) (hdesc : ds.Pairwise (fun a b => b.lt a = true))
+    (hnz : ∀ d ∈ ds, d ≠ Dlg.zero) (limit : Nat) (hlimit : 1 ≤ limit) (ks : List Kind)
+    (fuel : Nat) (hfuel : ds.length < fuel) :
+    (drun ds fuel ks (DIter.init limit)).yields = ds ∧
+    (drun ds fuel ks (DIter.init limit)).done = true := by
+  have hpend : dpending ds (DIter.init limit) = ds := by simp [dpending, DIter.init, belowD]
+  have := drunS_exact ds hdesc hnz ks fuel 0 (DIter.init limit) (by simp only [DIter.init]; omega)
+    (by rw [hpend]; exact hfuel)
+  rw [hpend] at this
+  exact this
+
+/-- Non-vacuity (dialogs): three dialogs, two of them with the same date, page size 2. -/
+example : (drun [⟨9, 5, 2⟩, ⟨9, 5, 1⟩, ⟨3, 8, 7⟩] 4 [.slice, .full] (DIter.init 2)).yields =
+    [⟨9, 5, 2⟩, ⟨9, 5, 1⟩, ⟨3, 8, 7⟩] := by decide
 
 /-- Non-vacuity: a 5-item history with page size 2 (three pages, the last one short) and one with an
 exact multiple (page size 2, 4 items: the end is discovered by an empty page). -/
